@@ -1,2 +1,3 @@
+import Driver.DasText
 import Driver.DdsText
 import Driver.Slice
